@@ -502,12 +502,43 @@ func vPerfect(parent *Node[int, int], h int, seq *[]*Node[int, int]) *Node[int, 
 	return n
 }
 
-// VHDeep: Keys/Values/full iteration on the perfect all-black tree of height H (2^H - 1 nodes), symbolic keys and values.
+// vSkew is the DEEPEST red-black tree for its size: black height bh, one spine alternating black/red (height 2*bh), every
+// subtree off the spine perfect and all black. side 0: spine to the left, 1: to the right.
+func vSkew(parent *Node[int, int], bh int, side int, seq *[]*Node[int, int]) *Node[int, int] {
+	if bh == 0 {
+		return nil
+	}
+	b := &Node[int, int]{Parent: parent, color: black}
+	r := &Node[int, int]{Parent: b, color: red}
+	if side == 0 {
+		r.Left = vSkew(r, bh-1, side, seq)
+		*seq = append(*seq, r)
+		r.Right = vPerfect(r, bh-1, seq)
+		b.Left = r
+		*seq = append(*seq, b)
+		b.Right = vPerfect(b, bh-1, seq)
+	} else {
+		b.Left = vPerfect(b, bh-1, seq)
+		*seq = append(*seq, b)
+		b.Right = r
+		r.Left = vPerfect(r, bh-1, seq)
+		*seq = append(*seq, r)
+		r.Right = vSkew(r, bh-1, side, seq)
+	}
+	return b
+}
+
+// VHDeep: Keys/Values/full iteration on the perfect all-black tree of height H (2^H - 1 nodes) or, with shape=1/2, on
+// the deepest red-black tree of black height H (height 2H, spine left/right); symbolic keys and values.
 func VHDeep() {
 	H := v.Cfg("H")
 	var seq []*Node[int, int]
 	t := &Tree[int, int]{Comparator: vl.Cmp}
-	t.Root = vPerfect(nil, H, &seq)
+	if sh := v.CfgOr("shape", 0); sh > 0 {
+		t.Root = vSkew(nil, H, sh-1, &seq)
+	} else {
+		t.Root = vPerfect(nil, H, &seq)
+	}
 	t.size = len(seq)
 	ek, ev := vDeepKeys(len(seq))
 	for i, n := range seq {
